@@ -70,6 +70,7 @@ namespace
         A_DIST,
         A_NB,
         A_NB_IN,
+        A_NB_WALK,
         A_RC_IDX,
         A_RC_IDX_IN,
         A_RC_NB,
@@ -134,6 +135,31 @@ namespace
                     order.push_back(n.idx);
                 }
                 cmp_sets(c, m, i, e, acc == A_NB ? "struct" : "struct-inplace");
+                break;
+            }
+            case A_NB_WALK:
+            {
+                // walking: neighbors(nb[k].idx, nb) - the index is a reference into the output
+                auto first = g.nbs(i);
+                for (auto& n : first)
+                    order.push_back(n.idx);
+                for (size_t k = 0; k < first.size(); ++k)
+                {
+                    size_t j = first[k].idx;
+                    if (j >= m.n)
+                        c.fail("neighbors-struct", "index out of range");
+                    auto v = g.nbs_walk(i, k);
+                    std::vector<Ent> e;
+                    for (auto& n : v)
+                    {
+                        if (n.idx >= m.n)
+                            c.fail("neighbors-struct", "index out of range");
+                        e.push_back({ n.idx, n.dist });
+                        if (n.status != g.status(n.idx))
+                            c.fail("neighbors-status", "walk " + std::to_string(i) + "->" + std::to_string(j) + ": neighbour " + std::to_string(n.idx) + " reported with status " + std::to_string(n.status));
+                    }
+                    cmp_sets(c, m, j, e, ("struct-walk(from node " + std::to_string(i) + ")").c_str());
+                }
                 break;
             }
             case A_RC_IDX:
@@ -242,7 +268,7 @@ static void check_case(vg::Src& s, vh::Ctx& c)
     for (size_t q = 0; q < nq; ++q)
     {
         size_t i = s.range(0, m.n - 1);
-        int acc = static_cast<int>(s.range(0, raster ? A_N - 1 : A_NB_IN));
+        int acc = static_cast<int>(s.range(0, raster ? A_N - 1 : A_NB_WALK));
         bool second = s.chance(60);  // ask the twin grid (other cache policy) instead
         if (hist.size() < 200)
             hist += std::to_string(i) + ":" + std::to_string(acc) + (second ? "' " : " ");
@@ -257,7 +283,7 @@ static void check_case(vg::Src& s, vh::Ctx& c)
     for (size_t i = 0; i < m.n; ++i)
     {
         std::vector<size_t> ref;
-        for (int acc = 0; acc <= (raster ? A_N - 1 : A_NB_IN); ++acc)
+        for (int acc = 0; acc <= (raster ? A_N - 1 : A_NB_WALK); ++acc)
         {
             auto o1 = query(c, *g, m, i, acc);
             auto o2 = query(c, *g2, m, i, acc);
